@@ -160,4 +160,13 @@ theorem abs_seek_read (L : Layout) (rs : List Bytes) (a : AState) (i : Nat) (hi 
   have hnot : ¬ (0 ≥ (recAt rs i).length) := by omega
   simp [absRun, absStep, absRead, openRec, hi, hnot]
 
+/-- what a history may contain: seeks go to the reported start position of a record (or to the end position) -/
+def HistOK (rs : List Bytes) (ops : List Op) : Prop := ∀ op ∈ ops, ∀ i, op = .seek i → i ≤ rs.length
+
+theorem histOK_opOK {rs : List Bytes} {ops : List Op} (h : HistOK rs ops) : ∀ op ∈ ops, OpOK rs op := by
+  intro op hop
+  cases op with
+  | seek i => exact h _ hop i rfl
+  | _ => trivial
+
 end TD.C05
